@@ -386,6 +386,17 @@ func (s *Sim) userSetTemplate(ns, name, letter string) {
 	s.Store.ForceUpdate(e)
 }
 
+// userReapply: the user applies the manifest again, i.e. the strategy as authored (not defaulted).
+func (s *Sim) userReapply(ns, name string) {
+	e := s.Store.GetEDS(ns, name)
+	def := s.W.EDSDef(ns, name)
+	if e == nil || def == nil {
+		return
+	}
+	e.Spec.Strategy = def.Strategy.Object()
+	s.Store.ForceUpdate(e)
+}
+
 func (s *Sim) userAnnotate(ns, name, key, val string) {
 	e := s.Store.GetEDS(ns, name)
 	if e == nil {
@@ -444,6 +455,9 @@ func (s *Sim) userActions() []Action {
 			} else {
 				add("user.canary-strategy "+def.Key()+" +", func() { e.Spec.Strategy.Canary = def.Strategy.Canary.Object(); s.Store.ForceUpdate(e) })
 			}
+		}
+		if cfg.StrategyEdits {
+			add("user.reapply-spec "+def.Key(), func() { s.userReapply(def.NS, def.Name) })
 		}
 		if cfg.StrategyEdits && e.Spec.Strategy.Canary != nil && e.Spec.Strategy.Canary.Replicas != nil {
 			for _, v := range []string{"1", "2", "3"} {
